@@ -24,6 +24,7 @@ var c20Kinds = []string{"sigwinch", "sigwinch", "resize", "printf", "printf", "p
 
 type c20X struct {
 	Sweep bool `json:"sweep,omitempty"`
+	Calls int  `json:"calls,omitempty"` // Readline calls on the one Shell (default 1)
 }
 
 func (g *Gen) c20Script(mode string) []wire.Token {
@@ -94,6 +95,28 @@ func genC20(g *Gen, tier string, idx int) *wire.Scenario {
 		return sc
 	}
 	sc.Script = g.c20Script(mode)
+	if idx%10 == 9 {
+		// two calls on one Shell, the first left with the cursor below the first row of its input (a line wider
+		// than the terminal), and a SIGWINCH while the second call is starting up: inside the application's
+		// prompt function, the first time it runs in that call
+		sc.Env.W = Pick(g, []int{20, 30, 40})
+		sc.Env.History = nil
+		sc.Env.Comp = nil
+		sc.Script = nil
+		for j := 0; j < sc.Env.W+g.Range(3, sc.Env.W); j++ {
+			sc.Script = append(sc.Script, tok(string("0123456789"[j%10]), "self-insert"))
+		}
+		sc.Script = append(sc.Script, tok("\r", "accept-line"))
+		for _, r := range Pick(g, []string{"ab", "x", "second"}) {
+			sc.Script = append(sc.Script, tok(string(r), "self-insert"))
+		}
+		sc.Script = append(sc.Script, tok("\r", "accept-line"))
+		x.Calls = 2
+		sc.Plan = wire.Plan{Policy: "seeded", Class: "S0", Seed: g.Seed(), Sites: g.siteSubset(Pick(g, []int{10, 35})),
+			Disturb: []wire.Disturb{{Kind: "sigwinch", Task: "main", Site: "app.prompt.first", Nth: g.Range(1, 2), Burst: 1}}}
+		sc.X = mustJSON(x)
+		return sc
+	}
 	if idx%10 == 7 {
 		// one event while a command reads its argument key (the window of a listed finding: what is judged
 		// there is that the call itself goes on -- see the deadlock rule)
@@ -180,13 +203,25 @@ func genC20(g *Gen, tier string, idx int) *wire.Scenario {
 
 func execC20(x *Ctx, sc *wire.Scenario) *wire.Result {
 	res := okResult(sc)
-	ref := runSession(x, sc, wire.Plan{Policy: "canonical", Class: "S0"}, sim.Hooks{}, true)
+	var xx c20X
+	if len(sc.X) > 0 {
+		jsonInto(sc.X, &xx)
+	}
+	hooks := sim.Hooks{}
+	if xx.Calls > 1 {
+		hooks.Body = func(s *sim.Session, sh *readlineShell) {
+			for i := 0; i < xx.Calls; i++ {
+				s.Readline(sh)
+			}
+		}
+	}
+	ref := runSession(x, sc, wire.Plan{Policy: "canonical", Class: "S0"}, hooks, true)
 	absorb(res, ref)
 	if ref.End != "RETURNED" || len(ref.Returns) == 0 {
 		res.Counters["skipped:reference_run_did_not_return"]++
 		return res
 	}
-	out := runSession(x, sc, sc.Plan, sim.Hooks{}, true)
+	out := runSession(x, sc, sc.Plan, hooks, true)
 	absorb(res, out)
 	fired := 0
 	var firedList []string
@@ -204,7 +239,7 @@ func execC20(x *Ctx, sc *wire.Scenario) *wire.Result {
 	res.Nontrivial = true
 	supportedOnly := true
 	for _, f := range firedList {
-		if !strings.HasSuffix(f, "@inputwait") && !strings.HasSuffix(f, "@argwait") {
+		if !strings.HasSuffix(f, "@inputwait") && !strings.HasSuffix(f, "@argwait") && !strings.HasSuffix(f, "@app.prompt.first") {
 			supportedOnly = false
 		}
 	}
@@ -214,6 +249,11 @@ func execC20(x *Ctx, sc *wire.Scenario) *wire.Result {
 		for _, f := range firedList {
 			if strings.HasSuffix(f, "@argwait") {
 				window = "while-reading-an-argument-key"
+			}
+			if strings.HasSuffix(f, "@app.prompt.first") && window == "while-waiting-for-input" {
+				// the call is starting up (the application's prompt function runs): nobody of the library listens
+				// for the signal yet, nothing may happen
+				window = "while-the-call-starts-up"
 			}
 		}
 	}
@@ -275,7 +315,7 @@ func execC20(x *Ctx, sc *wire.Scenario) *wire.Result {
 			burst = true
 		}
 	}
-	fine := fired == 1 && !burst && window == "while-waiting-for-input"
+	fine := fired == 1 && !burst && (window == "while-waiting-for-input" || window == "while-the-call-starts-up")
 	if !fine {
 		for i := range kinds {
 			kinds[i] = strings.TrimSuffix(kinds[i], "*")
@@ -367,6 +407,39 @@ func execC20(x *Ctx, sc *wire.Scenario) *wire.Result {
 					}
 					res.Counters["frames_judged"]++
 				}
+			}
+		}
+	}
+	// (6) signals only (no size change, nothing printed): a redisplay that was not needed leaves the screen as the
+	// undisturbed run has it -- every row, not the input area alone -- at the next clean wait after a key
+	if out.Extra["resized"] != true && fired >= len(sc.Plan.Disturb) && len(kinds) == 1 && strings.TrimSuffix(kinds[0], "*") == "sigwinch" && window != "unsupported-window|sigwinch" {
+		maxTok := 0
+		for _, k := range out.DisturbTok {
+			if k > maxTok {
+				maxTok = k
+			}
+		}
+		var lastW *sim.Snap
+		for i := range out.Waits {
+			w := &out.Waits[i]
+			if w.Kind == "main" && !w.Dirty && w.Partial == 0 && w.Tokens > maxTok {
+				lastW = w
+			}
+		}
+		if lastW != nil && lastW.Screen != nil && !out.Stuck {
+			if refW := waitAfter(ref, lastW.Tokens); refW != nil && refW.Screen != nil && refW.Kind == "main" && refW.Line == lastW.Line && refW.Call == lastW.Call {
+				a, b := refW.Screen.Dump(), lastW.Screen.Dump()
+				// (rows are compared from the bottom of the screen: the disturbed run may have scrolled differently only
+				// if something else is wrong, which the row contents show as well)
+				same := len(a) == len(b) && refW.Screen.Scrolled == lastW.Screen.Scrolled
+				for i := 0; same && i < len(a); i++ {
+					same = a[i] == b[i]
+				}
+				if !same {
+					return violation(res, "LAYOUT", "C20.signal-alone-leaves-the-screen-as-it-was", name("screen:differs-from-the-undisturbed-run"),
+						fmt.Sprintf("disturbances %v (signals only, the terminal kept its size): at the input wait after %d keys the screen is %q; the undisturbed run has %q", firedList, lastW.Tokens, b, a))
+				}
+				res.Counters["frames_compared_with_the_undisturbed_run"]++
 			}
 		}
 	}
